@@ -1,3 +1,4 @@
 pub mod engine;
 pub mod models;
 pub mod props;
+pub mod texvm;
